@@ -9,6 +9,7 @@ import asyncio
 
 from hv import boot  # noqa: F401
 from hv.core import Result, viol
+from hv.exckit import OWN_CLASSES, make_own
 from hv.vtime import START, now
 from hv.world import Chooser, World
 from hv.vloop import Livelock
@@ -18,7 +19,7 @@ from haiway.helpers.timeouted import timeout  # noqa: E402
 ID = "C16"
 TECHNIQUE = "exhaustive schedule exploration of timer orders and caller-cancellation instants on the real timeout wrapper (virtual time)"
 RULE = (
-    "grid duration{1,2,3} x outcome{value,Exception,BaseException,self-cancel,ignores first "
+    "grid duration{1,2,3} x outcome{value,Exception,falsy Exception,own TimeoutError,own InvalidStateError,BaseException,self-cancel,ignores first "
     "cancellation then runs 1 or 3 more} x timeout 2 x caller cancel at {never, before first "
     "step, 1, 2, 3, 5}; all orders of timers with equal deadline, with and without landing in "
     "one loop iteration; wrapped function that is itself a wrapper object (timeout(10), throttle); "
@@ -50,7 +51,7 @@ class FEmpty(Exception):
         return 0
 
 
-KINDS = ["value", "exc", "base", "selfcancel", "ignore1", "ignore3", "falsy_exc"]
+KINDS = ["value", "exc", "base", "selfcancel", "ignore1", "ignore3", "falsy_exc", "own_timeout", "own_invalid"]
 CANCELS = [None, "pre", 1, 2, 3, 5]
 
 
@@ -67,6 +68,11 @@ def programs(tier: str):
             for kind in ("value", "exc", "ignore1"):
                 for tc in (None, 1):
                     yield {"d": d, "kind": kind, "tc": tc, "batch": 1, "inner": inner}
+    # the function's own exception is of a class the wrapper might use or handle internally
+    for c in range(len(OWN_CLASSES)):
+        for d in (1, 2):
+            for tc in (None, 1):
+                yield {"d": d, "kind": "exc", "tc": tc, "batch": 1, "errclass": c}
     # the caller is cancelled by somebody the function woke up right before it finished: the
     # request reaches the caller before it has resumed, so it ends cancelled
     for d in (1,):
@@ -139,6 +145,12 @@ def execute(program, ch: Chooser) -> Result:  # noqa: C901, PLR0912, PLR0915
     viols: list[dict] = []
     try:
         err = FErr("own") if kind != "falsy_exc" else FEmpty("own-empty")
+        if kind == "own_timeout":
+            err = TimeoutError(110, "Connection timed out")  # the function's own, not the wrapper's
+        elif kind == "own_invalid":
+            err = asyncio.InvalidStateError("own")  # the class Future.set_result itself raises
+        if "errclass" in program:
+            err = make_own(OWN_CLASSES[program["errclass"]], "own")
         base = FBase("own-base")
         st = {"started": False, "saw_cancel": False, "ended": False, "end_t": None}
 
@@ -156,7 +168,7 @@ def execute(program, ch: Chooser) -> Result:  # noqa: C901, PLR0912, PLR0915
                     raise
                 if program.get("cancel_at_return"):
                     w.loop.call_soon(task.cancel)  # runs before the caller is resumed
-                if kind in ("exc", "falsy_exc"):
+                if kind in ("exc", "falsy_exc", "own_timeout", "own_invalid"):
                     raise err
                 if kind == "base":
                     raise base
@@ -216,10 +228,14 @@ def execute(program, ch: Chooser) -> Result:  # noqa: C901, PLR0912, PLR0915
             "exc": ("raised", "FErr", True),
             "falsy_exc": ("raised", "FEmpty", True),
             "base": ("raised", "FBase", True),
+            "own_timeout": ("raised", "TimeoutError", True),
+            "own_invalid": ("raised", "InvalidStateError", True),
             "selfcancel": ("cancelled",),
             "ignore1": ("value", "v"),
             "ignore3": ("value", "v"),
         }[kind]
+        if "errclass" in program:
+            own = ("raised", type(err).__name__, True)
         events = [(float(d), "own"), (T, "timeout")]
         if tc == "pre":
             events.append((-1.0, "cancel"))
